@@ -134,26 +134,26 @@ def sha2(size, M, L=None, t=0):
     L = 8 * len(M) if L is None else L
     w = 32 if size in (224, 256) else 64
     H = sha2_iv(size, t)
-    for W in _blocks(md_pad(M, L, 16 * w, 2 * w, False), w // 8, False): H = sha2_compress(H, W, w)
+    for W in _blocks(md_pad(M, L, 16 * w, 2 * w, False), w // 8, False): H = COMPRESS['sha2_%d' % w](*H, *W)
     out = [b for h in H for b in be_bytes(h, w // 8)]
     return out[:(t or size) // 8]
 
 def sha1(M, L=None, version=1):
     L = 8 * len(M) if L is None else L
     H = IV1
-    for W in _blocks(md_pad(M, L, 512, 64, False), 4, False): H = sha1_compress(H, W, version)
+    for W in _blocks(md_pad(M, L, 512, 64, False), 4, False): H = COMPRESS['sha%d' % version](*H, *W)
     return [b for h in H for b in be_bytes(h, 4)]
 
 def md4(M, L=None):
     L = 8 * len(M) if L is None else L
     H = IV1[:4]
-    for W in _blocks(md_pad(M, L, 512, 64, True), 4, True): H = md4_compress(H, W)
+    for W in _blocks(md_pad(M, L, 512, 64, True), 4, True): H = COMPRESS['md4'](*H, *W)
     return [b for h in H for b in le_bytes(h, 4)]
 
 def md5(M, L=None):
     L = 8 * len(M) if L is None else L
     H = IV1[:4]
-    for W in _blocks(md_pad(M, L, 512, 64, True), 4, True): H = md5_compress(H, W)
+    for W in _blocks(md_pad(M, L, 512, 64, True), 4, True): H = COMPRESS['md5'](*H, *W)
     return [b for h in H for b in le_bytes(h, 4)]
 
 def pad_tail(m, needed, total, blockbits, lenbits, little):
@@ -166,3 +166,17 @@ def pad_tail(m, needed, total, blockbits, lenbits, little):
     while (8 * len(out) + lenbits) % blockbits: out.append(0)
     out += le_bytes(total & mask(lenbits), lenbits // 8) if little else be_bytes(total & mask(lenbits), lenbits // 8)
     return out
+
+# ---- the compression functions as opaque spec functions (callers of `update` see only these names)
+from pyvc.val import Opaque
+COMPRESS = {
+    'sha0': Opaque('sha0_compress', lambda *a: tuple(sha1_compress(a[:5], a[5:], 0)), [32] * 21, (32,) * 5),
+    'sha1': Opaque('sha1_compress', lambda *a: tuple(sha1_compress(a[:5], a[5:], 1)), [32] * 21, (32,) * 5),
+    'sha2_32': Opaque('sha2_compress32', lambda *a: tuple(sha2_compress(a[:8], a[8:], 32)), [32] * 24, (32,) * 8),
+    'sha2_64': Opaque('sha2_compress64', lambda *a: tuple(sha2_compress(a[:8], a[8:], 64)), [64] * 24, (64,) * 8),
+    'md4': Opaque('md4_compress', lambda *a: tuple(md4_compress(a[:4], a[4:])), [32] * 20, (32,) * 4),
+    'md5': Opaque('md5_compress', lambda *a: tuple(md5_compress(a[:4], a[4:])), [32] * 20, (32,) * 4),
+}
+def compress_of(alg):
+    if alg in ('sha0', 'sha1', 'md4', 'md5'): return COMPRESS[alg]
+    return COMPRESS['sha2_32' if alg in ('sha224', 'sha256') else 'sha2_64']
